@@ -164,7 +164,7 @@ func (s *subT) Skip(a ...any) {
 	s.mu.Unlock()
 	runtime.Goexit()
 }
-func (s *subT) Verbose() bool                          { return s.root.verbose }
+func (s *subT) Verbose() bool                         { return s.root.verbose }
 func (s *subT) Run(name string, f func(testscript.T)) { panic("nested Run not expected") }
 
 func (s *subT) verdict() string {
